@@ -147,6 +147,17 @@ class Interp:
         else:
             self.root[self.cfg['handle_key'].replace('/', self.sep)] = \
                 self.handle
+        if self.cfg.get('shadowed') and not self.cfg.get('standalone'):
+            # another handle is nested on top of the world handle's name
+            # (what a populator does on a conflict): the program loads the
+            # world through the reference it kept
+            hk = self.cfg['handle_key'].replace('/', self.sep)
+            holder = self.handle.parent
+            holder.handles.maps.insert(0, {})
+            self.root[hk] = ValHandle('decoy-on-top')
+            self.handle.parent, self.handle.key = holder, hk.split(
+                self.sep)[-1]
+            self.probes['world_handle_shadowed_by_a_newer_one'] += 1
         if '/' in self.cfg['handle_key']:
             self.probes['handle_depth>=2'] += 1
         self.world = None
@@ -611,6 +622,7 @@ def generate(prop, run_seed, tier='quick', tolerate=frozenset()):
            'split_char': crng.choice([None] * 6 + [':', '|']),
            'preload': [r for r in resources if crng.random() < .4],
            'escaped': crng.random() < .08,
+           'shadowed': crng.random() < .08,
            'res_text': ({r: crng.choice([
                '${verif_fixtures.OBJ}', '${os.sep}', '${verif_fixtures.NUM}',
                '$handle{a}', '${player.name} joined', '$res{b}'])
